@@ -11,15 +11,17 @@
 //! ```
 
 use linfa::traits::{FitWith, Predict};
-use linfa::{Dataset, ParamGuard};
+use linfa::{DatasetBase, ParamGuard};
 use linfa_ftrl::Ftrl;
-use ndarray::{Array1, Array2};
+use ndarray::Array1;
 use proptest::prelude::*;
 use rand_xoshiro::rand_core::SeedableRng;
 use rand_xoshiro::Xoshiro256Plus;
 use serde::{Deserialize, Serialize};
 use vengine::gen::gauss;
 use vengine::{Obs, Tier};
+
+use crate::layout::{self, Laid, Layout};
 
 /// z, n, weights: |Δ| <= TOL_STATE * (sum of the magnitudes entering the update)
 pub const TOL_STATE: f64 = 1e-12;
@@ -47,6 +49,9 @@ pub struct FtrlCase {
     pub l2: f64,
     pub seed: u64,
     pub batches: Vec<FtrlBatch>,
+    /// memory layouts of the batches' record matrices (cycled; empty = row-major)
+    #[serde(default)]
+    pub batch_layouts: Vec<Layout>,
 }
 
 fn weight(z: f64, n: f64, c: &FtrlCase) -> f64 {
@@ -180,9 +185,10 @@ fn run_history(c: &FtrlCase, obs: &mut Obs, judge: bool) -> Option<(Vec<f64>, Ve
     }
     let mut model: Option<Ftrl<f64>> = None;
     for (bi, b) in c.batches.iter().enumerate() {
-        let x = Array2::from_shape_fn((b.x.len(), c.p), |(i, j)| b.x[i][j]);
+        let laid = Laid::new(layout::of(&c.batch_layouts, bi), b.x.len(), c.p, f64::NAN, |i, j| b.x[i][j]);
+        let x = laid.view();
         let y = Array1::from_vec(b.y.clone());
-        let ds = Dataset::new(x.clone(), y);
+        let ds = DatasetBase::new(x, y);
         let prev = model.take();
         let m = if b.via_update {
             let mut m = match prev {
@@ -275,6 +281,7 @@ pub fn check(c: &FtrlCase, obs: &mut Obs) {
         obs.skip("malformed_case");
         return;
     }
+    layout::classify(None, &c.batch_layouts, c.batches.len(), obs);
     obs.class_if(c.batches.len() == 1, "ftrl_single_update");
     obs.class_if(c.batches.len() >= 5, "ftrl_five_or_more_updates");
     obs.class_if(c.l1 == 0.0, "ftrl_l1_zero");
@@ -312,8 +319,9 @@ pub fn strategy(_tier: Tier) -> impl Strategy<Value = FtrlCase> {
         any::<u64>(),
         proptest::collection::vec((1usize..=20, prop_oneof![3 => Just(false), 1 => Just(true)]), 1..=10),
         0u8..4,
+        layout::list(),
     );
-    meta.prop_flat_map(|(p, alpha, beta, l1, l2, seed, shape, data_mode)| {
+    meta.prop_flat_map(|(p, alpha, beta, l1, l2, seed, shape, data_mode, batch_layouts)| {
         let cell: BoxedStrategy<f64> = match data_mode {
             // binary indicator features (click-through style)
             1 => prop_oneof![Just(0.0), Just(1.0)].boxed(),
@@ -337,6 +345,6 @@ pub fn strategy(_tier: Tier) -> impl Strategy<Value = FtrlCase> {
             .collect();
         // beta = 0 with l2 = 0 is outside the domain (infinite first learning rate): lift l2
         let l2 = if beta == 0.0 && l2 == 0.0 { 0.1 } else { l2 };
-        batches.prop_map(move |batches| FtrlCase { p, alpha, beta, l1, l2, seed, batches })
+        batches.prop_map(move |batches| FtrlCase { p, alpha, beta, l1, l2, seed, batches, batch_layouts: batch_layouts.clone() })
     })
 }
